@@ -389,6 +389,9 @@ def run(ck):
               f"{mname}: precedence on a key clash is reversed (the spread order gives priority to "
               f"the {'data' if last == 'kwargs' else 'new items'})", m, m.node)
 
+    # ------------------------------------------------------------------ R16.4d
+    _dataedit_semantics(ck, de)
+
     # ------------------------------------------------------------------ R16.5
     docs = directives(ck.repo, 'filters.rst')
     ck.need(R5, docs, "docs/filters.rst not found or empty")
@@ -445,3 +448,130 @@ def _public_names(prog):
         else:
             names |= {k for k in m.bindings if not k.startswith('_')}
     return names
+
+
+# ---------------------------------------------------------------------------------------------
+# R16.4d: every DataEdit operation has the documented dictionary effect, decided by abstract
+# evaluation on the complete key-equality domain (see sa/dictval.py)
+
+_KEYS = ('k0', 'k1', 'k2')
+
+
+def _all_dicts():
+    import itertools
+    for present in itertools.product((False, True), repeat=len(_KEYS)):
+        yield {k: f"v_{k}" for k, p in zip(_KEYS, present) if p}
+
+
+def _edit_function(ck, rule, m):
+    """The callable appended to self._editlist by dual method m: (param names, body stmts | expr)."""
+    for x in own_nodes(m.node):
+        if isinstance(x, ast.Call) and call_name(x) == 'append' and recv(x) == 'self._editlist':
+            a = x.args[0]
+            if isinstance(a, ast.Lambda):
+                return [p.arg for p in a.args.args], a.body, 'expr'
+            if isinstance(a, ast.Name):
+                inner = [f for f in ck.prog.funcs.values() if f.parent is m and f.name == a.id]
+                if len(inner) == 1:
+                    return [p.arg for p in inner[0].node.args.args], inner[0].node.body, 'body'
+    raise AnalysisError(rule, f"{m.fid}: the edit function was not recognised")
+
+
+def _dataedit_semantics(ck, de):
+    import itertools
+    from sa.dictval import DictInterp, KeyErr
+    R = ck.rule('R16.4d', "every DataEdit operation has the documented dictionary effect on every "
+                "mapping over a three-key universe and every choice of parameter keys (complete "
+                "key-equality domain): add, setdefault, copy, rename, delete, permit, modify, "
+                "add_output", 'key-equality domain', 8)
+    m = de.methods
+    REJ, DEL = object(), object()
+    total = 0
+
+    def run_edit(mname, params, data):
+        pnames, body, kind = _edit_function(ck, R, m[mname])
+        env = dict(params)
+        d = dict(data)
+        env[pnames[0]] = d
+        it = DictInterp(R, env)
+        try:
+            res = it.ev(body) if kind == 'expr' else it.run(body)
+        except KeyErr:
+            return 'KeyError'
+        return res
+
+    def check(mname, cases, describe):
+        nonlocal total
+        bad = None
+        n = 0
+        for params, data, want in cases:
+            got = run_edit(mname, params, data)
+            n += 1
+            ck.abstract_cases += 1
+            if got != want and bad is None:
+                bad = (params, data, want, got)
+        total += n
+        ck.ob(R, f"{FIL}:DataEdit.{mname}", bad is None,
+              f"{describe}: {n} cases, all as documented" if bad is None else
+              f"{describe}: with parameters { {k: v for k, v in bad[0].items() if not callable(v)} } "
+              f"and data {bad[1]} the documented result is {bad[2]} but the code yields {bad[3]}",
+              m[mname], m[mname].node)
+
+    kw_choices = [dict(c) for r in range(0, 3) for c in itertools.combinations([('k0', 'n0'), ('k1', 'n1')], r)]
+    kwn = m['add'].node.args.kwarg.arg
+    check('add', [({kwn: kw}, d, {**d, **kw}) for kw in kw_choices for d in _all_dicts()],
+          "new items are added, existing values overwritten")
+    kwn = m['setdefault'].node.args.kwarg.arg
+    check('setdefault', [({kwn: kw}, d, {**kw, **d}) for kw in kw_choices for d in _all_dicts()],
+          "items are added only for missing keys")
+    a = [x.arg for x in m['copy'].node.args.args][1:]
+    cases = []
+    for src, dst in itertools.product(_KEYS, repeat=2):
+        for d in _all_dicts():
+            want = 'KeyError' if src not in d else {**d, dst: d[src]}
+            cases.append(({a[0]: src, a[1]: dst}, d, want))
+    check('copy', cases, "data[dst] = data[src]")
+    a = [x.arg for x in m['rename'].node.args.args][1:]
+    cases = []
+    for src, dst in itertools.product(_KEYS, repeat=2):
+        for d in _all_dicts():
+            if src not in d:
+                want = 'KeyError'
+            else:
+                want = {**d, dst: d[src]}
+                del want[src]       # "like copy, but the srckey item is deleted afterward"
+            cases.append(({a[0]: src, a[1]: dst}, d, want))
+    check('rename', cases, "copy, then the source key is deleted")
+    va = m['delete'].node.args.vararg.arg
+    subsets = [tuple(c) for r in range(0, 4) for c in itertools.combinations(_KEYS, r)]
+    check('delete', [({va: ks}, d, {k: v for k, v in d.items() if k not in ks})
+                     for ks in subsets for d in _all_dicts()],
+          "listed keys are removed, missing keys ignored")
+    va = m['permit'].node.args.vararg.arg
+    check('permit', [({va: ks}, d, {k: v for k, v in d.items() if k in ks})
+                     for ks in subsets for d in _all_dicts()],
+          "all but the listed keys are removed")
+    a = [x.arg for x in m['modify'].node.args.args][1:]
+    cases = []
+    for key in _KEYS:
+        for d in _all_dicts():
+            for behaviour in ('replace', 'delete', 'reject'):
+                if key not in d:
+                    want = 'KeyError'
+                elif behaviour == 'replace':
+                    want = {**d, key: ('f', d[key])}
+                elif behaviour == 'delete':
+                    want = {k: v for k, v in d.items() if k != key}
+                else:
+                    want = None
+                fn = {'replace': lambda v: ('f', v), 'delete': lambda v: DEL, 'reject': lambda v: REJ}[behaviour]
+                cases.append(({a[0]: key, a[1]: fn, 'self.REJECT': REJ, 'self.DELETE': DEL,
+                               'DataEdit.REJECT': REJ, 'DataEdit.DELETE': DEL}, d, want))
+    check('modify', cases, "value replaced / item deleted for DELETE / event rejected for REJECT")
+    a = [x.arg for x in m['add_output'].node.args.args][1:]
+    OUT = 'OUTPUT-OF-SOURCE'
+    check('add_output', [({a[0]: key, 'src.block.output': OUT}, d, {**d, key: OUT})
+                         for key in _KEYS for d in _all_dicts()],
+          "data[key] = source block's output")
+    ck.extra.setdefault('exhaustive_parts', []).append(
+        f"R16.4d: {total} (operation, parameters, mapping) cases over a 3-key universe")
